@@ -136,7 +136,7 @@ def check_writer(ctx, prog, R, eff, kind, fn, r_rec, piece):
         o2 = origins(prog, fn, t["args"][2], at=b)
         ctx.check(bool(o1) and all(x.kind == "param" and x.data == 2 and x.proj and x.proj[-1].endswith(pf(prog, piece, "offset")) for x in o1) and role_o(prog, R, fn, o2, "R_PIECE_SIZE"),
                   "writer-arms", kind + ":grow:frees-own-slot", "the slot freed when a record moves is not (its old offset, its old stored size)", where=where(fn, b))
-        ctx.check(all(pb in fn.reachable(fn.normal_succs(b)) and b not in fn.reachable(fn.normal_succs(pb)) for pb, _ in pops),
+        ctx.check(all(pb in fn.reachable(fn.normal_succs(b)) and b not in fn.reachable_ok(fn.normal_succs(pb)) for pb, _ in pops),
                   "writer-arms", kind + ":grow:push-before-pop", "the old slot is freed after the new one is taken", where=where(fn, b))
     # ---- allocation
     if ctx.check(len(pops) == 1, "alloc", kind + ":one-pop", "expected exactly one free-list pop in the %s record writer" % kind, where=where(fn)):
@@ -145,11 +145,8 @@ def check_writer(ctx, prog, R, eff, kind, fn, r_rec, piece):
                   "the free list is searched with a size that is not the rounded-up record size", where=where(fn, pb))
         exts = [(b, t) for b, t in calls_to(prog, fn, target_fn=ext) if fn.dominates(pb, b) and b != pb]
         ctx.check(len(exts) == 1, "alloc", kind + ":pop-before-extend", "the file is extended without first consulting the free list (or more than once)", where=where(fn))
-        def zpred(o):
-            if o.kind != "call" or not (o.data.get("callee") or "").endswith("::is_zero"):
-                return False
-            return role_o(prog, R, fn, origins(prog, fn, o.data["args"][0], at=o.block), "SLOT_POP")
-        zs = find_bool_split(prog, fn, zpred)
+        from .util import zero_splits
+        zs = zero_splits(prog, fn, lambda a: role_o(prog, R, fn, a, "SLOT_POP"))
         if ctx.check(len(zs) == 1, "alloc", kind + ":extend-split", "cannot find the `popped offset is zero` test", where=where(fn)):
             rz = region_dominated(fn, zs[0]["true"])
             ctx.check(all(b in rz for b, _ in exts), "alloc", kind + ":extend-only-if-no-free-slot",
@@ -230,9 +227,8 @@ def check_pop(ctx, prog, R, eff):
     ctx.check(role_o(prog, R, fn, nxt, "FREE_SIZE_NEXT") and all(x.proj[-1] == "f:1" for x in nxt), "push-pop-inverse", "pop:head-becomes-next",
               "after a pop the list head is not the popped slot's next link (%s)" % nxt, where=where(fn, hw[0][0]))
     # head write only when the head was non-zero
-    def zpred(o):
-        return o.kind == "call" and (o.data.get("callee") or "").endswith("::is_zero") and role_o(prog, R, fn, origins(prog, fn, o.data["args"][0], at=o.block), "FREE_HEAD_READ")
-    zs = find_bool_split(prog, fn, zpred)
+    from .util import zero_splits
+    zs = zero_splits(prog, fn, lambda a: role_o(prog, R, fn, a, "FREE_HEAD_READ"))
     if ctx.check(len(zs) == 1, "push-pop-inverse", "pop:empty-split", "cannot find the `list is empty` test in pop", where=where(fn)):
         nz = region_dominated(fn, zs[0]["false"])
         ctx.check(hw[0][0] in nz and cl[0][0] in nz and sn[0][0] in nz, "push-pop-inverse", "pop:only-if-nonempty", "pop rewrites the list head although the list was empty", where=where(fn))
@@ -271,10 +267,9 @@ def check_large_pop(ctx, prog, R, eff):
     may = eff.region_may(fn, r_hit)
     ctx.check(eff.must_from(fn, hit_entry, "SLOT_CLEAR") is True, "large-pop", "clears-slot", "a large slot can be handed out without being cleared", where=where(fn, hit_entry))
     # unlink: predecessor's next or header
-    def ppred(o):
-        return o.kind == "call" and (o.data.get("callee") or "").endswith("::is_zero")
+    from .util import zero_splits
     unl_ok = False
-    for sw in find_bool_split(prog, fn, ppred):
+    for sw in zero_splits(prog, fn, lambda a: True):
         if sw["block"] in r_hit:
             a, b_ = region_dominated(fn, sw["true"]), region_dominated(fn, sw["false"])
             wa = [b for b, t in calls_to(prog, fn, target_fn=R.need("FREE_HEAD_WRITE")) if b in a] + [b for b, t in calls_to(prog, fn, target_fn=R.need("W_FREE_OFFSET")) if b in a]
